@@ -42,3 +42,56 @@ func (r *Replica) ZZDiskFlags(name string) (bool, bool, string, bool) {
 
 func (r *Replica) ZZSetMode(m types.Mode) { r.mode = m }
 func (r *Replica) ZZHead() string         { return r.info.Head }
+
+// ZZServer: a replica server over the directory model in one of the six states
+// (initial, closed, open, dirty, rebuilding, error), with `snaps` snapshots.
+func ZZServer(state string, snaps int) (*Server, *zzfs.FS) {
+	fs := zzInstallFS()
+	ActionChannel = make(chan string, 5)
+	s := &Server{Dir: zzDir, defaultSectorSize: 4096, MonitorChannel: make(chan struct{}), preload: false}
+	if state == "initial" {
+		return s, fs
+	}
+	r := zzPreState(fs, snaps)
+	switch state {
+	case "closed":
+		r.Close()
+	case "error":
+		r.Close()
+		fs.Entries[volumeMetaData].Valid = false
+		fs.Entries[volumeMetaData].Meta = nil
+		fs.Entries[volumeMetaData].Size = 3
+	case "open":
+		r.info.Dirty = false
+		s.r = r
+	case "dirty":
+		r.info.Dirty = true
+		s.r = r
+	case "rebuilding":
+		r.SetRebuilding(true)
+		s.r = r
+	}
+	return s, fs
+}
+
+func (s *Server) ZZLockDepth() int { return zzLockDepth(&s.RWMutex) }
+func (s *Server) ZZOpen() bool     { return s.r != nil }
+func (s *Server) ZZChain() []string {
+	if s.r == nil {
+		return nil
+	}
+	ch, _ := s.r.Chain()
+	return ch
+}
+
+// ZZEntries: number of directory entries other than the revision counter file
+// (any status query initialises that file in an empty directory).
+func ZZEntries(fs *zzfs.FS) int {
+	n := 0
+	for k := range fs.Entries {
+		if k != revisionCounterFile {
+			n++
+		}
+	}
+	return n
+}
